@@ -197,6 +197,25 @@ def run(ctx: Ctx):
         if cname in SEL:
             okr = nf.kleene(ram, lambda n_: None) is True
             ctx.ob("C08.c", f"{cname}._reset:all-open", okr, rs.where, "every item is selectable at reset", construct=f"{rs.fi.qualname}:all-open")
+        # ---- g: the selection starts empty and belongs to the episode
+        if cname in SEL:
+            from .C09 import bases, is_clone
+            key = SEL[cname]
+            r0 = rs.cell(key)
+            x = nf.strip(r0) if r0 is not None else None
+            fresh = x is not None and not vg.cells_of(x) - {"locs", "membership", "weights", "distances", "orig_distances"} and \
+                (nf._fn(x) in ("torch.zeros", "torch.zeros_like") or (nf._fn(x) in ("torch.full", "torch.full_like") and vg.is_const(x.args[-1] if x.args[-1].op != "kw" else x.args[-1].args[1], False)))
+            from_inst = x is not None and key in vg.cells_of(x)
+            ctx.ob("C08.g", f"{cname}._reset:{key}:starts-empty", fresh and not from_inst, rs.where,
+                   f"{key} at reset = {vg.show(x, 3)[:80] if x is not None else None}: a fresh all-False tensor -- {fresh and not from_inst}" +
+                   ("" if fresh and not from_inst else "; a selection taken over from the instance carries the picks of earlier episodes (and lets _step write into instance data)"),
+                   construct=f"{rs.fi.qualname}:{key}:starts-empty")
+            bs_ = bases(sl.cell(key))
+            own = all(is_clone(b) or not vg.cells_of(b) for b in bs_)
+            ctx.ob("C08.g", f"{cname}._step:{key}:written-on-a-copy", own, sl.where,
+                   f"{key}' is built on {[vg.show(b, 2)[:40] for b in bs_]}: a clone of the previous selection -- {own}" +
+                   ("" if own else "; the in-place store changes the tensor of the previous state (and of the instance, if reset passed it through)"),
+                   construct=f"{sl.fi.qualname}:{key}:in-place")
         # ---- d: bookkeeping
         for key, (need, forbid) in BOOK.get(cname, {}).items():
             v = sl.cell(key)
